@@ -38,7 +38,11 @@ class LineCurve(AnalyticCurve):
         self.point_1 = Point(point_1)
         self.point_2 = Point(point_2)
 
-        super().__init__(lambda t: self.point_1.position + self.vector * t, bounds)
+        # (a bound method rather than a lambda: a copy() must evaluate its own points, not the original's)
+        super().__init__(self._get_line_point, bounds)
+
+    def _get_line_point(self, param: float):
+        return self.point_1.position + self.vector * param
 
     @property
     def vector(self) -> NPVectorType:
@@ -71,7 +75,10 @@ class CircleCurve(AnalyticCurve):
         # so that the sense of rotation is also mirrored when the points are
         self.side = Point(f.rotate(self.rim.position, np.pi / 2, f.unit_vector(normal), self.origin.position))
 
-        super().__init__(lambda t: f.rotate(self.rim.position, t, self.normal, self.origin.position), bounds)
+        super().__init__(self._get_circle_point, bounds)
+
+    def _get_circle_point(self, param: float):
+        return f.rotate(self.rim.position, param, self.normal, self.origin.position)
 
     @property
     def normal(self) -> NPVectorType:
